@@ -270,7 +270,14 @@ ExpandHolds(Ob, obj, ref) ==
       isB(q) == acts[q].act = "mark"
       isE(q) == acts[q].act = "markend"
       partner(q) == IF isB(q) THEN posOf(<<rga[q][1] + 1, rga[q][2]>>) ELSE posOf(<<rga[q][1] - 1, rga[q][2]>>)
-      anchors == {q \in gap : (isB(q) \/ isE(q)) /\ partner(q) \notin gap}
+      \* an unmark (a mark with a null value) only matters where a mark of the same name with a value spans the
+      \* whole gap: elsewhere "covered by the unmark" and "not covered" both read as unmarked (not observable)
+      beginOf(q) == IF isB(q) THEN acts[q] ELSE OpById(Ob, <<rga[q][1] - 1, rga[q][2]>>)
+      isNull(q) == beginOf(q).val.k = "null"
+      spannedByValue(q) ==
+        \E b \in 1..n : /\ acts[b].act = "mark" /\ acts[b].mname = beginOf(q).mname /\ acts[b].val.k # "null"
+                         /\ b <= lo /\ posOf(<<rga[b][1] + 1, rga[b][2]>>) >= hi
+      anchors == {q \in gap : (isB(q) \/ isE(q)) /\ partner(q) \notin gap /\ (isNull(q) => spannedByValue(q))}
       mustBefore == {q \in anchors : (isB(q) /\ acts[q].expand) \/ (isE(q) /\ ~acts[q].expand)}
       mustAfter == anchors \ mustBefore
       satisfiable == \A a \in mustBefore : \A b \in mustAfter : a < b
